@@ -162,7 +162,7 @@ func run(c *mc.Ctx, u mc.Unit) {
 	for _, leaf := range leaves {
 		ts = append(ts, triple{p.Mainnet, p.Rollup, leaf})
 	}
-	n := carriers(c, fmt.Sprintf("row %+v", p), ts)
+	n := carriers(c, fmt.Sprintf("row %+v", p), ts, false)
 	c.AddEvals(n)
 	c.Witness("rows_followed_through_all_carriers")
 	c.Obs("row %+v leaves=%d encoded=%x carrier_checks=%d", p, len(leaves), digest.Sum(nil), n)
@@ -199,7 +199,9 @@ func runMixed(c *mc.Ctx, p params) {
 			}
 		}
 	}
-	n := carriers(c, fmt.Sprintf("mixed rows around rollup %d", p.Rollup), ts)
+	// ... and once more on the same flow objects after an L2 reorg that replaced the claims of every block by the same
+	// number of other claims (the same ones in reverse order)
+	n := carriers(c, fmt.Sprintf("mixed rows around rollup %d", p.Rollup), ts, true)
 	c.AddEvals(n)
 	c.NonTrivial()
 	c.Witness("claims_of_rows_sharing_low_bits_through_one_flow")
@@ -210,7 +212,7 @@ var dbSeq int
 
 // carriers stores the row's claims, reads them back and follows them through every carrier.
 // It returns the number of (value, carrier) checks made.
-func carriers(c *mc.Ctx, label string, all []triple) (checks int) {
+func carriers(c *mc.Ctx, label string, all []triple, afterReorg bool) (checks int) {
 	ctx := context.Background()
 	log := kit.Logger()
 	dbSeq++
@@ -233,24 +235,28 @@ func carriers(c *mc.Ctx, label string, all []triple) (checks int) {
 		want  []*big.Int
 	}
 	var chunks []chunk
-	for i := 0; i < len(all); i += chunkSize {
-		j := min(i+chunkSize, len(all))
-		ch := chunk{block: firstBlock + uint64(len(chunks))}
-		var events []any
-		for k, t := range all[i:j] {
-			v := refCompose(t.M, t.R, t.L)
-			ch.ts = append(ch.ts, t)
-			ch.want = append(ch.want, v)
-			cl := claimFor(new(big.Int).Set(v), ch.block, uint64(k), t.M)
-			events = append(events, bridgesync.Event{Claim: &cl})
+	load := func(all []triple) {
+		chunks = nil
+		for i := 0; i < len(all); i += chunkSize {
+			j := min(i+chunkSize, len(all))
+			ch := chunk{block: firstBlock + uint64(len(chunks))}
+			var events []any
+			for k, t := range all[i:j] {
+				v := refCompose(t.M, t.R, t.L)
+				ch.ts = append(ch.ts, t)
+				ch.want = append(ch.want, v)
+				cl := claimFor(new(big.Int).Set(v), ch.block, uint64(k), t.M)
+				events = append(events, bridgesync.Event{Claim: &cl})
+			}
+			var bh common.Hash
+			new(big.Int).SetUint64(ch.block).FillBytes(bh[:])
+			if err := bs.VerifStore().ProcessBlock(ctx, aggkitsync.Block{Num: ch.block, Hash: bh, Events: events}); err != nil {
+				panic(fmt.Sprintf("harness: ProcessBlock: %v", err))
+			}
+			chunks = append(chunks, ch)
 		}
-		var bh common.Hash
-		new(big.Int).SetUint64(ch.block).FillBytes(bh[:])
-		if err := bs.VerifStore().ProcessBlock(ctx, aggkitsync.Block{Num: ch.block, Hash: bh, Events: events}); err != nil {
-			panic(fmt.Sprintf("harness: ProcessBlock: %v", err))
-		}
-		chunks = append(chunks, ch)
 	}
+	load(all)
 
 	// real objects, fresh per execution
 	bridgeQuerier := query.NewBridgeDataQuerier(log, bs, time.Second)
@@ -265,158 +271,179 @@ func carriers(c *mc.Ctx, label string, all []triple) (checks int) {
 	submission := &recSubmission{}
 	agglayer := agglayergrpc.NewVerifAgglayerGRPCClient(grpcCfg, nil, nil, submission)
 
-	for _, ch := range chunks {
-		where := fmt.Sprintf("%s block %d", label, ch.block)
-		at := func(i int) string {
-			return fmt.Sprintf("claim with on-chain global index %v = 0x%x %v", ch.want[i], ch.want[i], ch.ts[i])
-		}
-
-		// -- the stored claim, as aggsender reads it
-		var claims []bridgesync.Claim
-		guard(c, "store", where, func() {
-			_, cls, err := bridgeQuerier.GetBridgesAndClaims(ctx, ch.block, ch.block)
-			if err != nil {
-				c.Failf("store/error", "%s: GetBridgesAndClaims: %v", where, err)
-				return
+	passes := 1
+	if afterReorg {
+		passes = 2 //nolint:mnd
+	}
+	for pass := 0; pass < passes; pass++ {
+		if pass == 1 {
+			if err := bs.VerifStore().Reorg(ctx, firstBlock); err != nil {
+				panic(fmt.Sprintf("harness: Reorg: %v", err))
 			}
-			claims = cls
-		})
-		if len(claims) != len(ch.want) {
-			c.Failf("store/claims-lost", "%s: stored %d claims, read %d", where, len(ch.want), len(claims))
-			continue
-		}
-		ok := true
-		for i := range claims {
-			checks++
-			if claims[i].GlobalIndex == nil || claims[i].GlobalIndex.Cmp(ch.want[i]) != 0 || claims[i].BlockPos != uint64(i) {
-				c.Failf("store/global-index", "%s: read back global index %v at position %d", at(i), claims[i].GlobalIndex, claims[i].BlockPos)
-				ok = false
-			}
-		}
-		if !ok {
-			continue
-		}
-		newParams := func(t types.CertificateType) *types.CertificateBuildParams {
-			return &types.CertificateBuildParams{FromBlock: ch.block, ToBlock: ch.block, Claims: claims, CreatedAt: 1,
-				L1InfoTreeRootFromWhichToProve: fixedL1Root, L1InfoTreeLeafCount: 4, CertificateType: t}
-		}
-
-		// -- PP flow: certificate, signed commitment, wire message, stored JSON
-		guard(c, "certificate", where, func() {
-			signer.hashes = nil
-			cert, err := ppFlow.BuildCertificate(ctx, newParams(types.CertificateTypePP))
-			if err != nil {
-				c.Failf("certificate/error", "%s: PP BuildCertificate: %v", where, err)
-				return
-			}
-			if !checkCertificate(c, "pp", cert, at, ch.want, &checks) {
-				return
-			}
-			checkCommitments(c, cert, at, ch.want, &checks)
-			// hash handed to the signer
-			var giHashes [][]byte
-			for _, v := range ch.want {
-				giHashes = append(giHashes, refGlobalIndexHash(v))
-			}
-			wantPP := crypto.Keccak256Hash(cert.NewLocalExitRoot.Bytes(), crypto.Keccak256(giHashes...))
-			checks += len(ch.want)
-			if len(signer.hashes) != 1 || signer.hashes[0] != wantPP {
-				c.Failf("commitment/pp-hash-to-sign", "%s: PP flow signed %v, commitment over the on-chain global indexes is %s; first differing claim: %s",
-					where, signer.hashes, wantPP, firstBadHash(cert, ch.want, at))
-			}
-			checkWire(c, agglayer, submission, cert, "pp", where, at, ch.want, &checks)
-			checkJSON(c, cert, where, at, ch.want, &checks)
-		})
-
-		// -- aggchain prover flow: prover request, certificate, signed commitment, wire message
-		guard(c, "prover", where, func() {
-			prover.reqs, signer.hashes = nil, nil
-			bp := newParams(types.CertificateTypeFEP)
-			proof, _, err := fepFlow.GenerateAggchainProof(ctx, ch.block-1, ch.block, bp)
-			if err != nil {
-				c.Failf("prover/error", "%s: GenerateAggchainProof: %v", where, err)
-				return
-			}
-			if len(prover.reqs) != 1 || len(prover.reqs[0].ImportedBridgeExits) != len(ch.want) {
-				c.Failf("prover/claims-lost", "%s: prover got %d requests", where, len(prover.reqs))
-				return
-			}
-			for i, x := range prover.reqs[0].ImportedBridgeExits {
-				checks++
-				if !be32Is(x.GetGlobalIndex().GetValue(), ch.want[i]) {
-					c.Failf("prover/global-index", "%s: prover request carries global index bytes %x = %v",
-						at(i), x.GetGlobalIndex().GetValue(), intFromBE(x.GetGlobalIndex().GetValue()))
+			rev := make([]triple, len(all))
+			for i := 0; i < len(all); i += chunkSize { // reversed inside every block: same ranges, same counts, other claims at every position
+				j := min(i+chunkSize, len(all))
+				for k := i; k < j; k++ {
+					rev[k] = all[i+j-1-k]
 				}
 			}
-			bp.AggchainProof = proof
-			cert, err := fepFlow.BuildCertificate(ctx, bp)
-			if err != nil {
-				c.Failf("certificate/error", "%s: FEP BuildCertificate: %v", where, err)
-				return
+			load(rev)
+			label += ", after an L2 reorg that reversed the claims of every block"
+			c.Witness("second_pass_on_the_same_flow_objects_after_an_l2_reorg")
+		}
+		for _, ch := range chunks {
+			where := fmt.Sprintf("%s block %d", label, ch.block)
+			at := func(i int) string {
+				return fmt.Sprintf("claim with on-chain global index %v = 0x%x %v", ch.want[i], ch.want[i], ch.ts[i])
 			}
-			if !checkCertificate(c, "fep", cert, at, ch.want, &checks) {
-				return
-			}
-			var chunksLE []byte
-			for i, v := range ch.want {
-				le := refLE32(v)
-				chunksLE = append(chunksLE, le[:]...)
-				chunksLE = append(chunksLE, cert.ImportedBridgeExits[i].BridgeExit.Hash().Bytes()...)
-			}
-			var heightLE [8]byte
-			for i := 0; i < 8; i++ {
-				heightLE[i] = byte(cert.Height >> (8 * i))
-			}
-			wantFEP := crypto.Keccak256Hash(cert.NewLocalExitRoot.Bytes(), crypto.Keccak256(chunksLE), heightLE[:], fixedAggParam.Bytes())
-			checks += len(ch.want)
-			if len(signer.hashes) != 1 || signer.hashes[0] != wantFEP {
-				c.Failf("commitment/fep-hash-to-sign", "%s: FEP flow signed %v, commitment over the on-chain global indexes is %s; first differing claim: %s",
-					where, signer.hashes, wantFEP, firstBadHash(cert, ch.want, at))
-			}
-			checkWire(c, agglayer, submission, cert, "fep", where, at, ch.want, &checks)
-		})
 
-		// -- optimistic mode: prover request and the commitment over the imported bridge exits
-		guard(c, "optimistic", where, func() {
-			prover.optReqs, optSigner.claims, optSigner.commits = nil, nil, nil
-			_, _, err := fepFlow.GenerateAggchainProof(ctx, ch.block-1, ch.block, newParams(types.CertificateTypeOptimistic))
-			if err != nil {
-				c.Failf("optimistic/error", "%s: optimistic GenerateAggchainProof: %v", where, err)
-				return
+			// -- the stored claim, as aggsender reads it
+			var claims []bridgesync.Claim
+			guard(c, "store", where, func() {
+				_, cls, err := bridgeQuerier.GetBridgesAndClaims(ctx, ch.block, ch.block)
+				if err != nil {
+					c.Failf("store/error", "%s: GetBridgesAndClaims: %v", where, err)
+					return
+				}
+				claims = cls
+			})
+			if len(claims) != len(ch.want) {
+				c.Failf("store/claims-lost", "%s: stored %d claims, read %d", where, len(ch.want), len(claims))
+				continue
 			}
-			if len(prover.optReqs) != 1 || len(prover.optReqs[0].GetAggchainProofRequest().GetImportedBridgeExits()) != len(ch.want) ||
-				len(optSigner.commits) != 1 || len(optSigner.claims[0]) != len(ch.want) {
-				c.Failf("optimistic/claims-lost", "%s: optimistic prover got %d requests, signer %d", where, len(prover.optReqs), len(optSigner.commits))
-				return
-			}
-			for i, x := range prover.optReqs[0].GetAggchainProofRequest().GetImportedBridgeExits() {
+			ok := true
+			for i := range claims {
 				checks++
-				if !be32Is(x.GetGlobalIndex().GetValue(), ch.want[i]) {
-					c.Failf("prover/global-index-optimistic", "%s: optimistic prover request carries global index bytes %x = %v",
-						at(i), x.GetGlobalIndex().GetValue(), intFromBE(x.GetGlobalIndex().GetValue()))
+				if claims[i].GlobalIndex == nil || claims[i].GlobalIndex.Cmp(ch.want[i]) != 0 || claims[i].BlockPos != uint64(i) {
+					c.Failf("store/global-index", "%s: read back global index %v at position %d", at(i), claims[i].GlobalIndex, claims[i].BlockPos)
+					ok = false
 				}
 			}
-			var all []byte
-			for i, v := range ch.want {
-				all = append(all, refCommitChunk(v, &optSigner.claims[0][i])...)
+			if !ok {
+				continue
 			}
-			checks += len(ch.want)
-			if optSigner.commits[0] != crypto.Keccak256Hash(all) {
-				// localize: the commitment of each claim on its own
-				found := false
-				for i, v := range ch.want {
-					one := optimistichash.CalculateCommitImportedBrdigeExitsHashFromClaims(optSigner.claims[0][i : i+1])
-					if one != crypto.Keccak256Hash(refCommitChunk(v, &optSigner.claims[0][i])) {
-						c.Failf("optimistic/commitment", "%s: imported-bridge-exit commitment %s is not keccak(LE32(global index) || bridge exit hash)", at(i), one)
-						found = true
-						break
+			newParams := func(t types.CertificateType) *types.CertificateBuildParams {
+				return &types.CertificateBuildParams{FromBlock: ch.block, ToBlock: ch.block, Claims: claims, CreatedAt: 1,
+					L1InfoTreeRootFromWhichToProve: fixedL1Root, L1InfoTreeLeafCount: 4, CertificateType: t}
+			}
+
+			// -- PP flow: certificate, signed commitment, wire message, stored JSON
+			guard(c, "certificate", where, func() {
+				signer.hashes = nil
+				cert, err := ppFlow.BuildCertificate(ctx, newParams(types.CertificateTypePP))
+				if err != nil {
+					c.Failf("certificate/error", "%s: PP BuildCertificate: %v", where, err)
+					return
+				}
+				if !checkCertificate(c, "pp", cert, at, ch.want, &checks) {
+					return
+				}
+				checkCommitments(c, cert, at, ch.want, &checks)
+				// hash handed to the signer
+				var giHashes [][]byte
+				for _, v := range ch.want {
+					giHashes = append(giHashes, refGlobalIndexHash(v))
+				}
+				wantPP := crypto.Keccak256Hash(cert.NewLocalExitRoot.Bytes(), crypto.Keccak256(giHashes...))
+				checks += len(ch.want)
+				if len(signer.hashes) != 1 || signer.hashes[0] != wantPP {
+					c.Failf("commitment/pp-hash-to-sign", "%s: PP flow signed %v, commitment over the on-chain global indexes is %s; first differing claim: %s",
+						where, signer.hashes, wantPP, firstBadHash(cert, ch.want, at))
+				}
+				checkWire(c, agglayer, submission, cert, "pp", where, at, ch.want, &checks)
+				checkJSON(c, cert, where, at, ch.want, &checks)
+			})
+
+			// -- aggchain prover flow: prover request, certificate, signed commitment, wire message
+			guard(c, "prover", where, func() {
+				prover.reqs, signer.hashes = nil, nil
+				bp := newParams(types.CertificateTypeFEP)
+				proof, _, err := fepFlow.GenerateAggchainProof(ctx, ch.block-1, ch.block, bp)
+				if err != nil {
+					c.Failf("prover/error", "%s: GenerateAggchainProof: %v", where, err)
+					return
+				}
+				if len(prover.reqs) != 1 || len(prover.reqs[0].ImportedBridgeExits) != len(ch.want) {
+					c.Failf("prover/claims-lost", "%s: prover got %d requests", where, len(prover.reqs))
+					return
+				}
+				for i, x := range prover.reqs[0].ImportedBridgeExits {
+					checks++
+					if !be32Is(x.GetGlobalIndex().GetValue(), ch.want[i]) {
+						c.Failf("prover/global-index", "%s: prover request carries global index bytes %x = %v",
+							at(i), x.GetGlobalIndex().GetValue(), intFromBE(x.GetGlobalIndex().GetValue()))
 					}
 				}
-				if !found {
-					c.Failf("optimistic/commitment", "%s: commitment over %d claims is %s, want %s", where, len(ch.want), optSigner.commits[0], crypto.Keccak256Hash(all))
+				bp.AggchainProof = proof
+				cert, err := fepFlow.BuildCertificate(ctx, bp)
+				if err != nil {
+					c.Failf("certificate/error", "%s: FEP BuildCertificate: %v", where, err)
+					return
 				}
-			}
-		})
+				if !checkCertificate(c, "fep", cert, at, ch.want, &checks) {
+					return
+				}
+				var chunksLE []byte
+				for i, v := range ch.want {
+					le := refLE32(v)
+					chunksLE = append(chunksLE, le[:]...)
+					chunksLE = append(chunksLE, cert.ImportedBridgeExits[i].BridgeExit.Hash().Bytes()...)
+				}
+				var heightLE [8]byte
+				for i := 0; i < 8; i++ {
+					heightLE[i] = byte(cert.Height >> (8 * i))
+				}
+				wantFEP := crypto.Keccak256Hash(cert.NewLocalExitRoot.Bytes(), crypto.Keccak256(chunksLE), heightLE[:], fixedAggParam.Bytes())
+				checks += len(ch.want)
+				if len(signer.hashes) != 1 || signer.hashes[0] != wantFEP {
+					c.Failf("commitment/fep-hash-to-sign", "%s: FEP flow signed %v, commitment over the on-chain global indexes is %s; first differing claim: %s",
+						where, signer.hashes, wantFEP, firstBadHash(cert, ch.want, at))
+				}
+				checkWire(c, agglayer, submission, cert, "fep", where, at, ch.want, &checks)
+			})
+
+			// -- optimistic mode: prover request and the commitment over the imported bridge exits
+			guard(c, "optimistic", where, func() {
+				prover.optReqs, optSigner.claims, optSigner.commits = nil, nil, nil
+				_, _, err := fepFlow.GenerateAggchainProof(ctx, ch.block-1, ch.block, newParams(types.CertificateTypeOptimistic))
+				if err != nil {
+					c.Failf("optimistic/error", "%s: optimistic GenerateAggchainProof: %v", where, err)
+					return
+				}
+				if len(prover.optReqs) != 1 || len(prover.optReqs[0].GetAggchainProofRequest().GetImportedBridgeExits()) != len(ch.want) ||
+					len(optSigner.commits) != 1 || len(optSigner.claims[0]) != len(ch.want) {
+					c.Failf("optimistic/claims-lost", "%s: optimistic prover got %d requests, signer %d", where, len(prover.optReqs), len(optSigner.commits))
+					return
+				}
+				for i, x := range prover.optReqs[0].GetAggchainProofRequest().GetImportedBridgeExits() {
+					checks++
+					if !be32Is(x.GetGlobalIndex().GetValue(), ch.want[i]) {
+						c.Failf("prover/global-index-optimistic", "%s: optimistic prover request carries global index bytes %x = %v",
+							at(i), x.GetGlobalIndex().GetValue(), intFromBE(x.GetGlobalIndex().GetValue()))
+					}
+				}
+				var all []byte
+				for i, v := range ch.want {
+					all = append(all, refCommitChunk(v, &optSigner.claims[0][i])...)
+				}
+				checks += len(ch.want)
+				if optSigner.commits[0] != crypto.Keccak256Hash(all) {
+					// localize: the commitment of each claim on its own
+					found := false
+					for i, v := range ch.want {
+						one := optimistichash.CalculateCommitImportedBrdigeExitsHashFromClaims(optSigner.claims[0][i : i+1])
+						if one != crypto.Keccak256Hash(refCommitChunk(v, &optSigner.claims[0][i])) {
+							c.Failf("optimistic/commitment", "%s: imported-bridge-exit commitment %s is not keccak(LE32(global index) || bridge exit hash)", at(i), one)
+							found = true
+							break
+						}
+					}
+					if !found {
+						c.Failf("optimistic/commitment", "%s: commitment over %d claims is %s, want %s", where, len(ch.want), optSigner.commits[0], crypto.Keccak256Hash(all))
+					}
+				}
+			})
+		}
 	}
 	return checks
 }
